@@ -175,6 +175,7 @@ type Engine struct {
 	initPkgs    map[string]bool
 	redirects   map[string]*ssa.Function
 	params      map[string]int
+	knownLabels map[string]bool
 }
 
 func (e *Engine) allowed(fn *ssa.Function) bool {
